@@ -77,6 +77,7 @@ func c08(c *Ctx) {
 	c08ReadKeepsRemainder(c)
 	c08ListenerOwnVariables(c)
 	c08DetectorPresence(c)
+	decodeTargetsFresh(c, "entry-struct-fresh")
 }
 
 func c08Selector(c *Ctx, find, peek *ssa.Function, peekT *types.Named) {
